@@ -1,7 +1,10 @@
 ------------------------------- MODULE ObsC08 -------------------------------
 (* C08 (layer A): for every project the compile terminates without panicking, aborting or
    overflowing the stack, and either succeeds or reports at least one diagnostic.
-   One record per compiled project:  [id, outcome, diagnostics (when outcome = "diagnostics")]. *)
+   One record per compiled project:  [id, outcome, ndiag]   (ndiag = number of diagnostics reported;
+   outcome "panic" = the compiler panicked (caught by the harness), "abort" = the compiler process
+   died (abort / stack overflow, attributed by the driver)).  Instead of ndiag a record may carry
+   the list `diagnostics`. *)
 EXTENDS Naturals, Sequences, TLC, Json, IOUtils
 
 Rec == ndJsonDeserialize(IOEnv.TRACE)
@@ -9,9 +12,11 @@ Rec == ndJsonDeserialize(IOEnv.TRACE)
 VARIABLE l
 Init == l = 1
 
+NDiag(r) == IF "ndiag" \in DOMAIN r THEN r.ndiag ELSE Len(r.diagnostics)
+
 Why(r) ==
   CASE r.outcome = "ok" -> ""
-    [] r.outcome = "diagnostics" -> IF Len(r.diagnostics) >= 1 THEN "" ELSE "failed without any diagnostic"
+    [] r.outcome = "diagnostics" -> IF NDiag(r) >= 1 THEN "" ELSE "failed without any diagnostic"
     [] r.outcome = "panic" -> "panic"
     [] r.outcome = "abort" -> "process died (abort / stack overflow)"
     [] OTHER -> "unknown outcome"
